@@ -118,7 +118,8 @@ def rule_h1(repo, res):
 
 
 def rule_h2(repo, res):
-    """H2: no isinstance(<decoded value>, float) in parser or encoder that ignores the caller's real_cls."""
+    """H2: no isinstance test for a real-number type (float, Decimal, numbers.Real, ...) on a decoded value in parser
+    or encoder that ignores the caller's real_cls (Decimal is not a numbers.Real; a user class need not be one)."""
     n = 0
     for modname in ("parser", "encoder"):
         mod = repo.module(modname)
@@ -127,7 +128,9 @@ def rule_h2(repo, res):
                 if isinstance(x, ast.Call) and isinstance(x.func, ast.Name) and x.func.id == "isinstance" and len(x.args) == 2:
                     ty = x.args[1]
                     names = [norm(t) for t in (ty.elts if isinstance(ty, ast.Tuple) else [ty])]
-                    if "float" not in names:
+                    REALS = {"float", "Decimal", "decimal.Decimal", "numbers.Real", "numbers.Number", "numbers.Rational",
+                             "numbers.Complex", "Real", "Number", "Fraction", "complex"}
+                    if not (set(names) & REALS):
                         continue
                     n += 1
                     # find the whole boolean context: `isinstance(v, int) or isinstance(v, float)`
@@ -485,3 +488,32 @@ def rule_l1(repo, res):
     if not ok:
         res.add(Finding("L1", "pvl_validate.report_many", "verdict cells", "report_many() no longer maps the verdicts to L/No L and E/No E",
                         where=f"pvl/pvl_validate.py:{rm.lineno}"))
+
+
+CONTAINER_CLASSES = {"PVLModule", "PVLGroup", "PVLObject", "PVLAggregation", "OrderedMultiDict", "PVLModuleNew", "PVLGroupNew",
+                     "PVLObjectNew", "PVLAggregationNew", "PVLMultiDict"}
+
+
+def rule_no_hardcoded_containers(repo, res):
+    """V2b / H1b: method bodies of the encoder and parser classes never name a concrete container class (only
+    self.grpcls / self.objcls / self.modcls, whose defaults are parameter defaults): a hard-coded PVLGroup makes the
+    GROUP/OBJECT decision ignore the classes the caller (or pvl.new) configured."""
+    n = 0
+    for base in ("PVLEncoder", "PVLParser"):
+        for c in repo.subclasses(base):
+            for m, fn in repo.classes[c].methods.items():
+                n += 1
+                bad = []
+                defaults = {id(x) for d in fn.args.defaults + [k for k in fn.args.kw_defaults if k is not None] for x in ast.walk(d)}
+                for x in ast.walk(fn):
+                    if isinstance(x, ast.Name) and x.id in CONTAINER_CLASSES and id(x) not in defaults:
+                        bad.append(x)
+                res.oblige("V2b", f"{c}.{m} names no concrete container class outside parameter defaults", ok=not bad, nontrivial=False)
+                for x in bad:
+                    ctxn = getattr(x, "_parent", x)
+                    res.add(Finding("V2b", f"{c}.{m}", norm(ctxn, 70),
+                                    f"{c}.{m} refers to the concrete class {x.id} in `{norm(ctxn, 70)}` instead of the configured "
+                                    "self.grpcls / self.objcls / self.modcls: with substitute container classes (e.g. those of "
+                                    "pvl.new) groups and objects are told apart differently here than everywhere else",
+                                    where=f"pvl/{repo.classes[c].module.name}.py:{x.lineno}"))
+    res.floor("encoder/parser methods scanned for hard-coded container classes", n, 60)
